@@ -50,6 +50,18 @@ type NonRevocationProofBuilder struct {
 	commitments []*big.Int
 	randomizer  *big.Int
 	index       uint64
+
+	// what the commitment was made (or last updated) for: copies of the values of the witness and of
+	// the accumulator, and the object holding the signed accumulator. The witness object itself may
+	// since have been overwritten, e.g. by decoding stored state of the credential into it.
+	u, e, nu *big.Int
+	sacc     *revocation.SignedAccumulator
+}
+
+func (b *NonRevocationProofBuilder) remember(witness *revocation.Witness) {
+	b.u, b.e = new(big.Int).Set(witness.U), new(big.Int).Set(witness.E)
+	b.nu = new(big.Int).Set(witness.SignedAccumulator.Accumulator.Nu)
+	b.sacc, b.index = witness.SignedAccumulator, witness.SignedAccumulator.Accumulator.Index
 }
 
 // ensureAccumulator unmarshals (and verifies) the accumulator of a witness that has not done so yet,
@@ -80,12 +92,29 @@ func (b *NonRevocationProofBuilder) UpdateCommit(witness *revocation.Witness) er
 	if err := ensureAccumulator(b.pk, witness); err != nil {
 		return err
 	}
-	if b.index >= witness.SignedAccumulator.Accumulator.Index {
+	acc := witness.SignedAccumulator.Accumulator
+	if acc.Nu == nil {
+		return errors.New("accumulator has no value")
+	}
+	sameWitness := b.e != nil && b.e.Cmp(witness.E) == 0
+	if sameWitness && b.sacc == witness.SignedAccumulator && b.index == acc.Index &&
+		b.u.Cmp(witness.U) == 0 && b.nu.Cmp(acc.Nu) == 0 {
 		return nil
 	}
 	b.witness = witness
-	b.commit.Update(b.commitments, witness)
-	b.index = witness.SignedAccumulator.Accumulator.Index
+	if sameWitness {
+		// another state of the same witness - newer, or older when stored state was read back: all
+		// that depends on the state is computed again
+		b.commit.Update(b.commitments, witness)
+	} else {
+		// the witness of another credential was read into the variable: commit anew. The builder has
+		// not been used yet, so it may keep its randomizer.
+		b.commitments, b.commit = nil, nil
+		if _, err := b.Commit(); err != nil {
+			return err
+		}
+	}
+	b.remember(witness)
 	return nil
 }
 
@@ -302,6 +331,7 @@ func (ic *Credential) NonrevBuildProofBuilder() (*NonRevocationProofBuilder, err
 	if err != nil {
 		return nil, err
 	}
+	b.remember(ic.NonRevocationWitness)
 	return b, nil
 }
 
